@@ -120,6 +120,7 @@ def _stream_worker(a):
     cfg, lines, ids = good_stream(rng)
     conf = cfg.text(b["moddir"])
     results = []
+    confs = {}
     if kind == "hostile":
         for rep in range(a["reps"]):
             data = join(rng, mutate(rng, lines, ids))
@@ -173,6 +174,32 @@ def _stream_worker(a):
             results.append(("timer", data, r, None))
             if r.hang:
                 break
+    elif kind == "reload":
+        # the stream is interrupted by a SIGUSR1 whose file says the same thing in other words: the modules listed in another
+        # order (or one of them left to be pulled in as a dependency) - then the rest follows
+        import signal
+        rcfg = proto.Config(cfg.services, timeout=cfg.timeout, rules=cfg.rules or [{"name": "r1", "class": "c1"}], use_class=True)
+        orders_ = [("iauth_xquery", "iauth_class"), ("iauth_class", "iauth_xquery"), ("iauth_class",), ("iauth", "iauth_xquery", "iauth_class"),
+                   ("iauth_class", "iauth")]
+        for rep in range(a["reps"]):
+            m1, m2 = rng.sample(orders_, 2)
+            rcfg.modules = m1
+            conf = rcfg.text(b["moddir"])
+            rcfg.modules = m2
+            conf2 = rcfg.text(b["moddir"])
+
+            def do_reload(d, text=conf2):
+                with open(d.conf_path, "w", encoding="latin-1") as f:
+                    f.write(text)
+                d.p.send_signal(signal.SIGUSR1)
+            bl = mutate(rng, lines, ids) if rng.random() < 0.3 else [l.encode("latin-1") for l in lines]
+            data = b"-1 ? config\n" + join(rng, bl + [b"-1 ? stats", b"-1 ? config"])
+            cut = data.find(b"\n", int(len(data) * rng.choice([0.2, 0.5, 0.8]))) + 1 or len(data)
+            out, r = daemon.run_batch(b, conf, data, leaks=True, timeout=WD, pause_at=cut, pause_s=0.25, on_pause=do_reload, ready=lambda o: o.count(b"\na\n") >= 2)
+            confs[len(results)] = (conf, conf2, cut)
+            results.append(("reload:%s->%s" % ("+".join(m1), "+".join(m2)), data, r, None))
+            if r.hang:
+                break
     elif kind == "junk":
         good = [l.encode("latin-1") for l in lines]
         ref_out, ref_r = daemon.run_batch(b, conf, b"".join(l + b"\n" for l in good), leaks=True, timeout=WD)
@@ -215,8 +242,10 @@ def _stream_worker(a):
                 diff = "stdout differs at line %d when junk lines are mixed in: %r vs %r" % (k, out[k:k + 2], ref_out[k:k + 2])
             results.append(("junk", data, r, diff))
     packed = []
-    for tag, data, r, diff in results:
-        packed.append({"tag": tag, "clean": r.clean(), "crash": r.crash_events(), "stderr": r.stderr[-2500:] if not r.clean() else "", "diff": diff,
+    for idx, (tag, data, r, diff) in enumerate(results):
+        if idx in confs:
+            conf = confs[idx][0]
+        packed.append({"tag": tag, "reload": confs[idx][1:] if idx in confs else None, "clean": r.clean(), "crash": r.crash_events(), "stderr": r.stderr[-2500:] if not r.clean() else "", "diff": diff,
                        "data": data if (not r.clean() or diff) else None, "head": data[:600].decode("latin-1"), "len": len(data), "conf": conf if (not r.clean() or diff) else None,
                        "hash": vcommon.h([tag, seed, len(data), data[:200].decode("latin-1")])})
     return kind, packed
@@ -270,6 +299,7 @@ def run(chk, tier, scale=1.0):
     add("chunk", int((40 if q else 500) * scale), 6 if q else 20)
     add("junk", int((50 if q else 1000) * scale), 4 if q else 5)
     add("timer", int((16 if q else 160) * scale) or 1, 2)
+    add("reload", int((24 if q else 400) * scale) or 1, 2)
     res = vcommon.pmap(_stream_worker, jobs, chunksize=1)
     seen_crash = {}
     sampled = set()
@@ -304,6 +334,11 @@ def run(chk, tier, scale=1.0):
             chk.violation(Violation("C08", "hang", "hang", "daemon does not terminate at end of input (%s stream, %d bytes; repeated with a %.0f s watchdog); tail of input: %r" % (
                 p["tag"], len(data), 3 * WD, data[-120:]), {"config": p["conf"], "input": data.decode("latin-1"), "tag": p["tag"]}))
             continue
+        if p.get("reload"):
+            chk.violation(Violation("C08", "crash", "%s|%s" % ck, "daemon failed (%s in %s) on a %s stream: started with the first file, SIGUSR1 with the second after %d bytes of input\n%s" % (
+                ck[0], ck[1], p["tag"], p["reload"][1], p["stderr"]),
+                {"config": p["conf"], "config_after_reload": p["reload"][0], "reload_at": p["reload"][1], "input": data.decode("latin-1"), "tag": p["tag"]}))
+            continue
         try:
             small = minimise(b, p["conf"], data, ck)
         except Exception:
@@ -314,7 +349,7 @@ def run(chk, tier, scale=1.0):
                 "command without its argument), 0..40 arguments, empty / whitespace / colon-only lines, CR LF mixtures, NUL and high bytes, 600 B..70 KB lines, ids at and "
                 "beyond the limits of int and long, every command with id -1 and with live ids, replies with every malformed tag, random bytes; (2) peer death: %s prefixes of "
                 "streams; (3) the same stream under read() segmentations of at most 1,2,3,7,16,100,1000 bytes chosen by the guarded chunk hook must give identical stdout; "
-                "every third segmentation run additionally has 30-60 %% of the read()/readv() calls on fd 0 fail with EINTR / EAGAIN (LD_PRELOAD shim); (3b) streams interrupted for 1.6 s under a 1 s request timeout so that the real timers of pending, refused and abandoned requests expire; (4) a good stream with junk lines (unknown ids, unknown command words, malformed replies) mixed in must give identical stdout; oracle for all: exit 0 at end "
+                "every third segmentation run additionally has 30-60 %% of the read()/readv() calls on fd 0 fail with EINTR / EAGAIN (LD_PRELOAD shim); (3c) streams interrupted by a SIGUSR1 whose file lists the same modules in another order; (3b) streams interrupted for 1.6 s under a 1 s request timeout so that the real timers of pending, refused and abandoned requests expire; (4) a good stream with junk lines (unknown ids, unknown command words, malformed replies) mixed in must give identical stdout; oracle for all: exit 0 at end "
                 "of input, no ASan / UBSan / LeakSanitizer report, no hang; distinct = hash of input; non-trivial = non-empty input" % ("60 sampled per stream" if q else "all"))
     chk.require("runs_hostile", 500 * min(1.0, scale))
     chk.require("runs_prefix", 200 * min(1.0, scale))
@@ -325,7 +360,17 @@ def run(chk, tier, scale=1.0):
 def replay(chk, rep):
     b = prun.build_daemon("c08-replay")
     w = rep["witness"]
-    out, r = daemon.run_batch(b, w["config"], w["input"].encode("latin-1"), leaks=True)
+    if w.get("config_after_reload"):
+        import signal
+
+        def do_reload(d, text=w["config_after_reload"]):
+            with open(d.conf_path, "w", encoding="latin-1") as f:
+                f.write(text)
+            d.p.send_signal(signal.SIGUSR1)
+        out, r = daemon.run_batch(b, w["config"].replace("c08-quick", "c08-replay").replace("c08-thorough", "c08-replay"), w["input"].encode("latin-1"), leaks=True,
+                                  pause_at=w["reload_at"], pause_s=0.25, on_pause=do_reload, ready=lambda o: o.count(b"\na\n") >= 2)
+    else:
+        out, r = daemon.run_batch(b, w["config"], w["input"].encode("latin-1"), leaks=True)
     print("\n".join(out[-20:]))
     print(r.describe())
     return 0 if r.clean() else 1
